@@ -183,7 +183,7 @@ func strGsub(L *LState) int {
 	repl := L.CheckAny(3)
 	limit := L.OptInt(4, len(str)+1)
 	if limit <= 0 {
-		L.SetTop(1)
+		L.Push(LString(str)) // the subject as a string, even if a number was passed
 		L.Push(LNumber(0))
 		return 2
 	}
@@ -193,7 +193,7 @@ func strGsub(L *LState) int {
 		L.RaiseError(err.Error())
 	}
 	if len(mds) == 0 {
-		L.SetTop(1)
+		L.Push(LString(str)) // the subject as a string, even if a number was passed
 		L.Push(LNumber(0))
 		return 2
 	}
